@@ -286,7 +286,13 @@ pub fn eval(expr: Node) -> Result<Decimal, Box<dyn error::Error>> {
             match sum {
                 Some(sum) => Ok(sum / len),
                 // the sum leaves the Decimal range although the mean does not
-                None => Ok(values.iter().map(|value| *value / len).sum()),
+                None => {
+                    let mut mean = Decimal::ZERO;
+                    for value in values.iter() {
+                        mean = mean.checked_add(*value / len).ok_or_else(out_of_range)?;
+                    }
+                    Ok(mean)
+                }
             }
         }
         Med(args) => {
@@ -300,7 +306,9 @@ pub fn eval(expr: Node) -> Result<Decimal, Box<dyn error::Error>> {
                 let two = Decimal::new(2, 0);
                 match results[len >> 1].checked_add(results[(len >> 1) - 1]) {
                     Some(sum) => Ok(sum / two),
-                    None => Ok(results[len >> 1] / two + results[(len >> 1) - 1] / two),
+                    None => (results[len >> 1] / two)
+                        .checked_add(results[(len >> 1) - 1] / two)
+                        .ok_or_else(out_of_range),
                 }
             } else {
                 Ok(results[len >> 1])
